@@ -65,6 +65,12 @@ def run_case(ctx: Ctx, topo: dict, rng: random.Random, mode: str, recs: list, me
     coords = {int(k): v for k, v in coords.items()} if isinstance(coords, dict) else dict(enumerate(coords))
     npts = len(coords)
     base = [point(coords[v]) for v in range(npts)]
+    far = mode == "far"
+    if far:
+        # the same topology thousands of cell sizes away from the origin, jittered by a few hundredths of a cell: what
+        # has to be smoothed is small only RELATIVE to the coordinates
+        mode = "all-free"
+        base = [[p[0] + 4000.0 * scale, p[1] + 7000.0 * scale, p[2] - 2500.0 * scale] for p in base]
     boundary = set(topo["boundary"])
     neigh = {int(k): v for k, v in topo["neigh"].items()} if isinstance(topo["neigh"], dict) else {i: v for i, v in enumerate(topo["neigh"])}
     interior = [v for v in range(npts) if v not in boundary]
@@ -80,7 +86,7 @@ def run_case(ctx: Ctx, topo: dict, rng: random.Random, mode: str, recs: list, me
                 # keep the sketch planar: jitter in the sketch plane only
                 ex, ey = vector([1, 0, 0]), vector([0, 1, 0])
                 d = vadd(vmul(ex, rng.uniform(-1, 1)), vmul(ey, rng.uniform(-1, 1)))
-            pos[v] = vadd(pos[v], vmul(d, 0.3 * size))
+            pos[v] = vadd(pos[v], vmul(d, (0.03 if far else 0.3) * size))
             jittered.append(v)
     fixed: List[int] = []
     fix_by = "none"
@@ -115,7 +121,7 @@ def run_case(ctx: Ctx, topo: dict, rng: random.Random, mode: str, recs: list, me
         return
     ctx.evaluated(f"{topo['topo']}:{mode}:{fix_by}:{sorted(fixed)}")
     after = current_positions(obj, topo, npts)
-    key = f"{topo['topo']['kind']}:{mode}"
+    key = f"{topo['topo']['kind']}:{mode}" + (":far-from-origin" if far else "")
     # copy-back: every holder of a point has the same position
     for v, copies in after.items():
         if any(vdist(c, copies[0]) > 1e-12 * max(1.0, vnorm(copies[0])) for c in copies[1:]):
@@ -156,7 +162,7 @@ def run(ctx: Ctx) -> None:
     meta: Dict[int, dict] = {}
     reps = 3 if ctx.tier == "quick" else 10
     for topo in topos:
-        for mode in ("all-free", "fixed", "single-free", "regular-start"):
+        for mode in ("all-free", "fixed", "single-free", "regular-start", "far"):
             for _ in range(reps if mode in ("fixed", "single-free") else 1):
                 run_case(ctx, topo, rng, mode, recs, meta)
     if not recs:
